@@ -24,6 +24,9 @@ Decided clause:
   R5.6 (E16) re-entrancy: no function of the X25519 / box / kx / HSalsa20 units writes a writable static object (scratch field
        elements in a file-scope static make concurrent key agreements corrupt each other); the implementation slot is set only
        by *_pick_best_implementation.
+  R5.7 (E2 who-may-call) primitive-specific units of crypto_box / crypto_scalarmult / crypto_kx / crypto_secretbox never call the
+       generic front end of their own operation: `crypto_box_beforenm` from the XChaCha20 box is the HSalsa20 derivation, so the
+       one-shot and the precomputed API would disagree on the shared key.
   R5.5 (E12 known-bits) in the X25519 units `(hi << k) | lo` packings have provably bit-disjoint operands; the
        loosely reduced output limbs of the assembly ladder are therefore repacked with `+`.
 NOT decided: RFC 7748 values, the ladder arithmetic, the BLAKE2b values, seeded key-pair values.
@@ -86,6 +89,8 @@ def run(ctx, chk):
     # are only loosely reduced: repacking them needs `+`)
     from .. import knownbits
     knownbits.or_packing_rule(prog, chk, "R5.5", ("crypto_scalarmult/curve25519/",), floor=3)
+    # R5.7: who-may-call: the box / scalarmult / kx / secretbox families never go through the generic front end of their own operation
+    cm.layering_rule(prog, chk, "R5.7", ("crypto_box", "crypto_scalarmult", "crypto_kx", "crypto_secretbox", "crypto_core"), floor=50)
     # R5.6: "for every schedule": the key-agreement units keep no per-call state in static storage (E16)
     from .. import staticstate
     staticstate.static_state_rule(prog, chk, "R5.6", ("crypto_scalarmult/curve25519/", "crypto_scalarmult/crypto_scalarmult.c", "crypto_box/",
